@@ -15,6 +15,7 @@ or edits it (identity changed); both are parsed by the real `Parser`, and `Spec/
 Grammar sent to `drv_hashtext`:
     CASE <id>
     DEF <m|s> <name hex> <id> <N | R<hex> | L<fhex>:<thex>,..| L->        the variant's target as written
+    SRC <hex of physical line | ->..                                       its lines in the file (Model/YamlDef.lean loads them)
     KEY a <g|m> <name hex> <id> <fhex:thex,..|->                          identity in the base tree
     KEY b ...                                                              identity in the variant tree
     OBS <hex of MDF.raw of the variant> <sha256 hex base> <sha256 hex variant>
@@ -40,6 +41,7 @@ import json
 import logging
 import multiprocessing as mp
 import os
+import random
 import re
 import shutil
 import subprocess
@@ -65,7 +67,15 @@ def unhex(h: str) -> str:
 # tree -> YAML
 # --------------------------------------------------------------------------------------------------
 
-def _def_lines(d: Dict[str, Any], cm: int) -> List[str]:
+_COMMENT_TEXTS = ["note", "about the next field: text", "x: y", "id: 99", "fields: null", "a # b", "'quoted' \"text\"", "TODO", ""]
+
+
+def _def_lines(d: Dict[str, Any], cm: int, seed: Any = None) -> List[str]:
+    """the physical lines of one definition; cm 0 plain, 1/2 fixed comment styles, 3 decorated at random (seeded by
+    `seed` and the definition's name): indentation widths, blank lines, comment lines at any indentation, trailing
+    comments, trailing blanks, single / double quotes"""
+    if cm == 3:
+        return _def_lines_random(d, random.Random(f"{seed}:{d['name']}"))
     out = [f"  {d['name']}:" + ("   # the definition" if cm == 2 else "")]
     idl = None
     if d["kind"] == "m":
@@ -89,8 +99,58 @@ def _def_lines(d: Dict[str, Any], cm: int) -> List[str]:
     return out + (fl + [idl] if d.get("fields_first") else [idl] + fl)
 
 
+def _def_lines_random(d: Dict[str, Any], r) -> List[str]:
+    i1 = 2 + r.choice([1, 2, 2, 3, 4, 6])
+    i2 = i1 + r.choice([1, 2, 2, 4])
+
+    def tail():
+        x = ""
+        if r.random() < 0.4:
+            x += " " * r.randint(1, 3) + "#" + r.choice(["", " "]) + r.choice(_COMMENT_TEXTS)
+        elif r.random() < 0.25:
+            x += " " * r.randint(1, 3)
+        return x
+
+    def noise() -> List[str]:
+        ls: List[str] = []
+        while r.random() < 0.35:
+            k = r.random()
+            if k < 0.4:
+                ls.append(r.choice(["", "", "   ", " " * (i2 + 2)]))
+            else:
+                ls.append(" " * r.choice([0, 1, 2, i1, i2, i2 + 3, 11]) + "#" + r.choice(["", " "]) + r.choice(_COMMENT_TEXTS))
+        return ls
+
+    def quote(t: str) -> str:
+        k = r.random()
+        if d.get("quote") or k < 0.15:
+            return f'"{t}"'
+        if k < 0.3:
+            return f"'{t}'"
+        return t
+    out = [f"  {d['name']}:" + tail()]
+    idl: List[str] = []
+    if d["kind"] == "m":
+        v = d["id"]
+        idl = noise() + [" " * i1 + "id: " + (hex(v) if (d.get("hexid") or r.random() < 0.3) and v >= 0 else str(v)) + tail()]
+    f = d["fields"]
+    fl: List[str] = noise()
+    if f is None:
+        fl.append(" " * i1 + "fields:" + r.choice([" null", " ~", "", " null"]) + tail())
+    elif isinstance(f, str):
+        fl.append(" " * i1 + "fields: " + (f if r.random() < 0.7 else f'"{f}"') + tail())
+    else:
+        fl.append(" " * i1 + "fields:" + tail())
+        for n, t in f:
+            fl += noise()
+            fl.append(" " * i2 + f"{n}:" + " " * r.randint(1, 3) + quote(t) + tail())
+    body = (fl + idl) if (d.get("fields_first") or r.random() < 0.3) and idl else (idl + fl)
+    return out + body + noise()
+
+
 def file_text(f: Dict[str, Any], import_strings: List[str]) -> str:
     cm = f.get("comments", 0)
+    seed = f.get("decor_seed")
     out: List[str] = []
     if cm:
         out += ["# header comment: with a colon", ""]
@@ -105,13 +165,13 @@ def file_text(f: Dict[str, Any], import_strings: List[str]) -> str:
     if structs:
         out.append("struct_defs:")
         for d in structs:
-            out += _def_lines(d, cm)
+            out += _def_lines(d, cm, seed)
             if cm:
                 out.append("")
     if msgs:
         out.append("message_defs:")
         for d in msgs:
-            out += _def_lines(d, cm)
+            out += _def_lines(d, cm, seed)
             if cm == 2:
                 out += ["", "  # between definitions", ""]
     if not out or all((not l) or l.startswith("#") for l in out):
@@ -227,8 +287,8 @@ def rand_fields(rng, structs: List[str], kmin=1, kmax=5) -> List[List[str]]:
 def base_tree(rng) -> Tuple[Dict[str, Any], str]:
     """1-3 files; structs first; a target message; returns (tree, target name)"""
     nfiles = rng.choice([1, 2, 2, 3])
-    files = [{"path": ("" if i == 0 else f"inc{i}/") + f"defs{i}.yaml", "imports": [], "comments": rng.choice([0, 0, 1, 2]),
-              "consts": [], "defs": []} for i in range(nfiles)]
+    files = [{"path": ("" if i == 0 else f"inc{i}/") + f"defs{i}.yaml", "imports": [], "comments": rng.choice([0, 0, 1, 2, 3, 3]),
+              "decor_seed": rng.randrange(1 << 30), "consts": [], "defs": []} for i in range(nfiles)]
     for i in range(nfiles - 1):
         files[i]["imports"].append(i + 1)             # a chain: file i imports i+1 (deeper files are read first)
     if nfiles == 3 and rng.random() < 0.5:
@@ -311,10 +371,11 @@ def relocations(rng, tree, target) -> List[Tuple[str, Dict[str, Any]]]:
         f["path"] = f"moved/deeper{k}/" + os.path.basename(f["path"]).replace("defs", "other")
     out.append(("other_dirs", t))
     # comments and blank lines everywhere / nowhere
-    for cm in (0, 1, 2):
+    for cm in (0, 1, 2, 3, 3):
         t = copy.deepcopy(tree)
         for f in t["files"]:
             f["comments"] = cm
+            f["decor_seed"] = rng.randrange(1 << 30)
         out.append((f"comments{cm}", t))
     # the target alone in a new file imported by (or importing) the old one, with whatever it re-uses still visible
     t = copy.deepcopy(tree)
@@ -512,6 +573,11 @@ def def_tok(d: Dict[str, Any]) -> str:
     return f"DEF {d['kind']} {_hex(d['name'])} {d['id']} {ft}"
 
 
+def src_tok(f: Dict[str, Any], d: Dict[str, Any]) -> str:
+    """the physical lines of the definition exactly as `file_text` writes them"""
+    return "SRC " + " ".join(_hex(l) or "-" for l in _def_lines(d, f.get("comments", 0), f.get("decor_seed")))
+
+
 def key_tok(which: str, ident: Dict[str, Any]) -> str:
     return f"KEY {which} {'g' if ident['signal'] else 'm'} {_hex(ident['name'])} {ident['id']} {_pairs_tok(ident['fields'])}"
 
@@ -532,8 +598,8 @@ def run_pair(args) -> Dict[str, Any]:
         return rec
     da, db = ra["defs"][tname_a], rb["defs"][tname_b]
     vi, vj = _find(variant, tname_b)
-    lines = [f"CASE {cid}", def_tok(variant["files"][vi]["defs"][vj]), key_tok("a", ia), key_tok("b", ib),
-             f"OBS {_hex(db['raw'])} {da['hash']} {db['hash']}", "END"]
+    lines = [f"CASE {cid}", def_tok(variant["files"][vi]["defs"][vj]), src_tok(variant["files"][vi], variant["files"][vi]["defs"][vj]),
+             key_tok("a", ia), key_tok("b", ib), f"OBS {_hex(db['raw'])} {da['hash']} {db['hash']}", "END"]
     rec.update(lines=lines, hash_a=da["hash"], hash_b=db["hash"], raw_b=db["raw"], ident_a=ia, ident_b=ib,
                uses_ref=uses_ref(base, tname_a) or uses_ref(variant, tname_b))
     # every other definition of the variant tree: text correspondence only
@@ -543,7 +609,7 @@ def run_pair(args) -> Dict[str, Any]:
         for d in f["defs"]:
             if d["name"] != tname_b and d["name"] in rb["defs"]:
                 o = rb["defs"][d["name"]]
-                extra += [f"CASE {cid}x{k}", def_tok(d), f"OBS {_hex(o['raw'])} {o['hash']} {o['hash']}", "END"]
+                extra += [f"CASE {cid}x{k}", def_tok(d), src_tok(f, d), f"OBS {_hex(o['raw'])} {o['hash']} {o['hash']}", "END"]
                 rec.setdefault("extra_hash", {})[f"{cid}x{k}"] = o["hash"]
                 k += 1
     rec["extra_lines"] = extra
